@@ -8619,6 +8619,9 @@ def aten_roll(self: TTensor, shifts: Sequence[int], dims: Sequence[int] = ()) ->
         result = self
         for i, shift in enumerate(shifts):
             dim = dims[i]
+            if dim < 0:
+                # Shape(start=dim, end=dim + 1) is empty for dim == -1 (end=0)
+                dim += self_rank
             result = _aten_roll_shift_and_dim_onnx(result, shift, dim)
         return result
 
@@ -8654,6 +8657,9 @@ def aten_roll_complex(
     else:
         assert len(shifts) == len(dims)
         for i, dim in enumerate(dims):
+            if dim < 0:
+                # The last dimension of the real representation is the complex dimension
+                dim += self_rank - 1
             self_real = _aten_roll_shift_and_dim_onnx(self_real, shifts[i], dim)
             self_imag = _aten_roll_shift_and_dim_onnx(self_imag, shifts[i], dim)
 
